@@ -48,6 +48,7 @@ GENERATORS = (hip_tables.gen_hip_tables,)
 
 TOL = F(1, 10 ** 9)
 REQ = ['Model.HipRa']
+RREQ = ['Gen.HipTables', 'Model.Fmt', 'Model.HipRa', 'Model.HipReport']
 ERRCODE = {'ZeroDivisionError': 2, 'ValueError': 3}
 N = {a: i for i, a in enumerate(hiprun.IN_ATTRS)}
 O = {a: i for i, a in enumerate(hiprun.OUT_ATTRS)}
@@ -180,20 +181,16 @@ def analyse(r):
     # no decision of Calculate is within 1e-15 of its threshold for inputs written as short decimals
     # (enthalpies and entropies stay exact: their differences cancel when the two temperatures are close)
     flat = [qconv.sig15(x) for x in pre[:12] + [F(int(dg)), pre[12], F(int(pg)), pre[13], fdmin, fhcmin, dens, cp]] + hs
-    if r['calc_error']:
-        impl = ('E', ERRCODE.get(r['calc_error'], 97))
-        outs = None
-    else:
-        try:
-            outs = [fx(h) for h in r['outs']]
-        except ValueError:
-            return {'skip': 'nonfinite'}
-        impl = ('V', outs)
+    try:
+        outs = [fx(h) for h in r['outs']]      # after an exception: the partially assigned outputs main() goes on to print
+    except ValueError:
+        return {'skip': 'nonfinite'}
+    impl = ('E', ERRCODE.get(r['calc_error'], 97)) if r['calc_error'] else ('V', outs)
     rec = 'low' if tres <= 90 else 'high' if tres >= 150 else 'mid'
     sig = (dg, pg, dens_d, cp_d, rec, int(tres // 20), r['calc_error'] or 'ok', tres < trej)
     oracle_ok = hs[0] > hs[1] and hs[2] >= hs[3] and (hs[0] - hs[1]) - (F(trej) + F('273.15')) * (hs[2] - hs[3]) >= 0
     return {'skip': None, 'flat': flat, 'impl': impl, 'outs': outs, 'pre': pre, 'sig': sig, 'tres': tres, 'trej': trej,
-            'oracle_ok': oracle_ok}
+            'oracle_ok': oracle_ok, 'error': r['calc_error']}
 
 
 def clause_terms(a, tol=TOL, all_in_one=False):
@@ -217,7 +214,7 @@ def show(a, idx):
 
 def part_model(ctx, labelled, results):
     """model vs Calculate on every run; the single-run clauses of the property on the implementation outputs."""
-    cases, ok_runs, skipped = [], [], {}
+    cases, ok_runs, partial, skipped = [], [], [], {}
     for (label, text), r in zip(labelled, results):
         a = analyse(r)
         if a['skip']:
@@ -225,14 +222,19 @@ def part_model(ctx, labelled, results):
             continue
         a.update(label=label, text=text)
         cases.append({'flat': a['flat'], 'impl': a['impl'], 'desc': {'label': label, 'text': text}, 'nontrivial': a['sig']})
-        if a['outs'] is not None:
-            ok_runs.append(a)
-    ctx.count('Calculate-vs-model', rejected=skipped, oracle_sign_hypotheses_hold=sum(1 for a in ok_runs if a['oracle_ok']),
-              inverted_temperature_runs=sum(1 for a in ok_runs if a['tres'] < a['trej']),
+        ok_runs.append(a)                   # runs that raised included: main() prints their partial outputs as results
+        if a['error']:
+            partial.append({'flat': a['flat'], 'impl': ('V', a['outs']), 'desc': {'label': label, 'text': text, 'error': a['error']},
+                            'nontrivial': a['sig']})
+    ctx.count('Calculate-vs-model', rejected=skipped, oracle_sign_hypotheses_hold=sum(1 for a in ok_runs if a['oracle_ok'] and not a['error']),
+              inverted_temperature_runs=sum(1 for a in ok_runs if a['tres'] < a['trej'] and not a['error']),
               error_runs=sum(1 for c in cases if c['impl'][0] == 'E'))
     flatcorr.run(ctx, 'Calculate-vs-model', REQ, 'run_hip', TOL, cases, kind='corr', shard=max(8, len(cases) // 32 + 1),
                  key_of=lambda c: 'calculate:model-differs:' + c['desc']['label'].split(':')[0],
                  what='HIP_RA_X.Calculate and the Coq model hip_calc disagree (outputs in the order of hiprun.OUT_ATTRS)')
+    flatcorr.run(ctx, 'partial-report-vs-model', RREQ, 'run_published', TOL, partial, kind='corr',
+                 key_of=lambda c: 'partial-report:model-differs:' + c['desc']['error'],
+                 what='after an exception in Calculate, the outputs main() goes on to print differ from the Coq model [published]')
     # the property itself, on what the implementation produced
     failing_runs = [ok_runs[b] for b in fw.kernel_bools(ctx, 'clauses', REQ, [clause_terms(a, all_in_one=True)[0] for a in ok_runs],
                                                         shard=max(20, len(ok_runs) // 32 + 1))]
@@ -243,14 +245,14 @@ def part_model(ctx, labelled, results):
     ctx.count('property-on-implementation', evaluations=6 * len(ok_runs), nontrivial_keys=[a['sig'] for a in ok_runs])
     for b in bad:
         a, cl = failing_runs[b // 6], CLAUSES[b % 6]
-        regime = 'Tres<Trej' if a['tres'] < a['trej'] else 'Tres>Trej'
+        regime = ('partial-report:' if a['error'] else '') + ('Tres<Trej' if a['tres'] < a['trej'] else 'Tres>Trej')
         key = f'cascade:{cl}:{regime}' if b % 6 >= 4 else f'additivity:{cl}'
         ctx.violate('property', key, f'HIP-RA-X clause "{cl}" fails on the real code ({regime})',
                     inp={'kind': 'clause', 'clause': cl, 'text': a['text']},
                     expected=cl, observed=show(a, [0, 1, 2, 13, 14, 15, 16, 17]))
     # an assumption of C17_cascade_partial that the water-property library does not meet is worth knowing
     for a in ok_runs:
-        if a['tres'] > a['trej'] and not a['oracle_ok']:
+        if a['tres'] > a['trej'] and not a['oracle_ok'] and not a['error']:
             ctx.note(f'water-property sign hypotheses do not hold at Tres={a["tres"]} Trej={a["trej"]} ({a["label"]})')
             break
     return ok_runs
@@ -300,7 +302,8 @@ def part_scaling(ctx, bases):
                 ctx.violate('property', f'scale:{name}:error-status', f'scaling {name} by {k} changes the error status of the run',
                             inp=inp, expected=r1['calc_error'], observed=r2['calc_error'])
             ctx.count('scaling', error_pairs=1)
-            continue
+            if r1['calc_error'] != r2['calc_error']:
+                continue
         try:
             o1, o2 = [fx(h) for h in r1['outs']], [fx(h) for h in r2['outs']]
         except ValueError:
@@ -475,38 +478,58 @@ def part_ranges(ctx):
                     inp={'kind': 'ranges', 'where': what[b]})
 
 
-def part_report(ctx, ok_runs, results_by_text):
-    """observe_at: the SUMMARY OF RESULTS of the report states the outputs (to the printed precision)."""
-    n = bad = 0
-    for a in ok_runs:
-        r = results_by_text[a['text']]
+def _fvals(hexes):
+    """implementation floats -> Coq fval terms (Fin exact rational | NegZero); None when one is not finite."""
+    out = []
+    for h in hexes:
+        try:
+            x = float.fromhex(h)
+        except ValueError:
+            return None
+        out.append('NegZero' if x == 0 and h.startswith('-') else f'Fin {qconv.q(F(x))}')
+    return '[' + '; '.join(out) + ']'
+
+
+def part_report(ctx, labelled, results):
+    """observe_at: the two SUMMARY sections of the report are, character for character, the string model applied to the
+    values the run holds (also for the partial report main() prints after an exception), and HipRaResult's parse of the
+    report is the model parser's."""
+    terms, meta = [], []
+    for (label, text), r in zip(labelled, results):
+        if r.get('read_error'):
+            continue
         if not r.get('report'):
             if r.get('print_error'):
-                ctx.violate('corr', 'report:print-error', f'PrintOutputs failed: {r["print_error"]}', inp={'kind': 'report', 'text': a['text']})
+                ctx.violate('corr', 'report:print-error', f'PrintOutputs failed: {r["print_error"]}', inp={'kind': 'report', 'text': text})
             continue
-        rep = hiprun.parse_report(r['report'])
-        for attr, label in r['names'].items():
-            if label not in rep or attr in ('reservoir_depth', 'reservoir_pressure', 'fluid_density', 'fluid_heat_capacity'):
-                continue
-            tok = rep[label][0]
-            val = float(a['outs'][O[attr]])
-            n += 1
-            if not any(_printed_ok(tok, v) for v in ((val, 100 * val) if attr == 'reservoir_recovery_factor' else (val,))):
-                bad += 1
-                ctx.violate('corr', f'report:{label}', f'report line "{label}" prints {tok} but the output parameter is {val!r}',
-                            inp={'kind': 'report', 'text': a['text']}, expected=val, observed=tok)
-    ctx.count('report-states-outputs', evaluations=n)
-
-
-def _printed_ok(tok, val):
-    try:
-        shown = float(tok)
-    except ValueError:
-        return False
-    mant, _, exp = tok.lower().partition('e')
-    digits = len(mant.partition('.')[2])
-    unit = 10.0 ** ((int(exp) if exp else 0) - digits)
-    return abs(shown - val) <= 0.5000001 * unit + 1e-12 * abs(val)
+        outs, ins = _fvals(r['outs']), _fvals(r['post_in'])
+        if outs is None or ins is None:
+            ctx.count('report-text', nonfinite_runs=1)
+            continue
+        b = lambda k: qconv.blit(r['provided'][k])
+        flags = f'{b("reservoir_depth")} {b("reservoir_pressure")}'
+        sec_in, sec_out = hiprun.sections(r['report'])
+        S = lambda x: '(' + qconv.coq_bytes(x) + ')%string'
+        lit = lambda lines: S(''.join(x + '\n' for x in lines))
+        terms.append(f'String.eqb (section_text (result_rows {flags}) hip_out_names {outs}) {lit(sec_out)}')
+        meta.append(('report:text:results', label, text))
+        terms.append(f'String.eqb (section_text (input_rows {flags}) hip_in_names {ins}) {lit(sec_in)}')
+        meta.append(('report:text:inputs', label, text))
+        if 'client' in r:
+            exp = '; '.join(f'({S(k)}, {qconv.q(fx(v))}, {"Some " + S(u) if u is not None else "None"})' for k, v, u in r['client'])
+            terms.append(f'parsed_agree {qconv.q(F(1, 10 ** 12))} (parse_report {S(r["report"])}) [{exp}]')
+            meta.append(('client:parse', label, text))
+        else:
+            ctx.violate('corr', 'client:parse-error', f'HipRaResult could not parse the report: {r.get("client_error")}',
+                        inp={'kind': 'report', 'text': text})
+    bad = fw.kernel_bools(ctx, 'report', RREQ, terms, shard=max(12, len(terms) // 40 + 1))
+    ctx.count('report-text', evaluations=len(terms), nontrivial_keys=[(m[0], i % 61) for i, m in enumerate(meta)])
+    what = {'report:text:results': 'SUMMARY OF RESULTS differs from the string model section_text (result_rows ..) on the values of the run',
+            'report:text:inputs': 'SUMMARY OF INPUTS differs from the string model section_text (input_rows ..) on the values of the run',
+            'client:parse': "HipRaResult's parse of the report differs from the model parser parse_report"}
+    for b in bad[:6]:
+        key, label, text = meta[b]
+        ctx.violate('corr', key, what[key] + f' ({label})', inp={'kind': 'report', 'text': text})
 
 
 def part_client(ctx, labelled, results_by_text):
@@ -555,7 +578,7 @@ def correspondence(ctx, proofs_ok=True):
     by_text = {t: r for (_, t), r in zip(labelled, results)}
     ok_runs = part_model(ctx, labelled, results)
     mark('model+clauses')
-    part_report(ctx, ok_runs, by_text)
+    part_report(ctx, labelled, results)
     part_helpers(ctx)
     part_ranges(ctx)
     mark('report+helpers+ranges')
